@@ -215,6 +215,32 @@ fn float3(d: &mut Draw) -> Outcome {
         ensure!(near(arr(p.midpoint(q))[i], pa[i] / 2.0 + qa[i] / 2.0, 4.0 * E * s), "float-midpoint", "midpoint(p,q) = p + (q-p)/2 within rounding");
     }
     ensure!(Point3::from_vec(p.to_vec()) == p && Point3::<f64>::origin().to_vec() == Vector3::zero(), "float-to_vec", "to_vec/from_vec");
+    // the point-vector dot acts component by component: sum of the products p_i v_i, also when the coordinates are near
+    // the top of the range and the vector tiny (or the other way round), and when all components of v are equal
+    {
+        let big = d.f64_log(1e290, 1.7e308);
+        let small = d.f64_log(1e-300, 1e-280);
+        let uniform = d.bool();
+        let s = |d: &mut Draw| if d.bool() { 1.0 } else { -1.0 };
+        let pb = Point3::new(big * d.f64_in(0.5, 1.0) * s(d), big * d.f64_in(0.5, 1.0) * s(d), big * d.f64_in(0.5, 1.0) * s(d));
+        let k = small * d.f64_in(0.5, 1.0) * s(d);
+        let vb = if uniform { Vector3::new(k, k, k) } else { Vector3::new(k, small * d.f64_in(0.5, 1.0), -small * d.f64_in(0.5, 1.0)) };
+        let (pb, vb) = if d.bool() { (pb, vb) } else { (Point3::from_vec(vb), pb.to_vec()) };
+        let terms = [pb.x * vb.x, pb.y * vb.y, pb.z * vb.z];
+        let want = terms[0] + terms[1] + terms[2];
+        let mag = terms[0].abs() + terms[1].abs() + terms[2].abs();
+        let got = EuclideanSpace::dot(pb, vb);
+        ensure!((got - want).abs() <= 8.0 * E * mag, "float-point-dot", "dot({:?}, {:?}) = {:e}, sum of the component products = {:e}", pb, vb, got, want);
+        let (p2, v2) = (cgmath::Point2::new(pb.x, pb.y), cgmath::Vector2::new(vb.x, vb.y));
+        let got2 = EuclideanSpace::dot(p2, v2);
+        ensure!((got2 - (terms[0] + terms[1])).abs() <= 8.0 * E * (terms[0].abs() + terms[1].abs()), "float-point-dot", "Point2 dot({:?}, {:?}) = {:e}", p2, v2, got2);
+        // ordinary sizes, all components of v equal
+        let (po, ko) = (Point3::new(comp(d), comp(d), comp(d)), d.f64_slog(1e-3, 1e3));
+        let vo = Vector3::new(ko, ko, ko);
+        let to = [po.x * ko, po.y * ko, po.z * ko];
+        let goto_ = EuclideanSpace::dot(po, vo);
+        ensure!((goto_ - (to[0] + to[1] + to[2])).abs() <= 8.0 * E * (to[0].abs() + to[1].abs() + to[2].abs()) + 1e-300, "float-point-dot-uniform", "dot({:?}, {:?}) = {:e}", po, vo, goto_);
+    }
     // centroid of short and long lists
     let n = match d.int(0, 3) { 0 => d.int(1, 4), 1 => d.int(5, 40), 2 => d.int(41, 300), _ => d.int(250, 520) } as usize;
     let mut pts = Vec::with_capacity(n);
@@ -301,7 +327,7 @@ pub fn property() -> Property {
     add!("homogeneous-Q", "Q", homogeneous::<Q>, 5000, 400_000, 32);
     add!("homogeneous-Fp", "Fp", homogeneous::<Fp>, 5000, 400_000, 32);
     add!("to_homogeneous-i64", "i64", to_homogeneous_int::<i64>, 2000, 100_000, 16);
-    s.push(SubCheck { name: "float3-f64", scalar: "f64", quick: 3000, thorough: 400_000, len: 96, f: float3, required: &[("k-within-ulps-of-1", 100), ("k-far-from-1", 200), ("k-ordinary", 100)], rule: "k != 1 and a list of at least two points", exhaustive: false });
+    s.push(SubCheck { name: "float3-f64", scalar: "f64", quick: 3000, thorough: 400_000, len: 144, f: float3, required: &[("k-within-ulps-of-1", 100), ("k-far-from-1", 200), ("k-ordinary", 100)], rule: "k != 1 and a list of at least two points", exhaustive: false });
     Property {
         id: "C12",
         title: "Points form an affine space over vectors, with exact homogeneous coordinates",
